@@ -122,6 +122,11 @@ func RunCase(c Case) (res stats.Result) {
 		switch {
 		case dEmu == "" && dTim != "":
 			res.Violation = fmt.Sprintf("timing (%s) differs from emulation (emulation agrees with the program's meaning): %s", c.GPUType, dTim)
+			if kgen.OnlyStaleStores(exp, tim.out) {
+				// F14: every differing cell holds the value of an earlier store of the same
+				// work-item to the same address (two same-address stores applied out of order)
+				res.KnownID = "F14"
+			}
 		case dEmu != "" && dTim == "":
 			res.Violation = fmt.Sprintf("emulation differs from timing (%s) (timing agrees with the program's meaning): %s", c.GPUType, dEmu)
 		case same:
@@ -150,10 +155,11 @@ func TestPropKernels(t *testing.T) {
 	rapid.Check(t, func(rt *rapid.T) {
 		c := genCase(rt)
 		r := RunCase(c)
-		if r.Violation != "" {
+		if r.Violation != "" && !(r.KnownID != "" && stats.KnownActive(r.KnownID)) {
 			// program-level shrinking (much faster than shrinking the draw sequence)
 			c.Prog = kgen.Shrink(c.Prog, 150, func(q *kgen.Program) bool {
-				return RunCase(Case{Prog: q, GPUType: c.GPUType}).Violation != ""
+				rr := RunCase(Case{Prog: q, GPUType: c.GPUType})
+				return rr.Violation != "" && rr.KnownID == r.KnownID
 			})
 			r = RunCase(c)
 		}
